@@ -56,6 +56,7 @@ import PyhamModel.Lemmas.HistoryInvariance
 import PyhamModel.Lemmas.FilterAbsent
 import PyhamModel.Lemmas.Interleave
 import PyhamModel.Lemmas.LeafProfile
+import PyhamModel.Lemmas.SaxSim
 namespace Pyham.Props
 open Pyham
 
@@ -968,5 +969,45 @@ theorem C20_oma_species_fault_rejected (T : STree) (nm : Naming) (inp : Input) (
 theorem C20_oma_mode_conservative (T : STree) (nm : Naming) (inp : Input)
     (h : ∀ s ∈ inp.species, ∃ p, T.findByName nm s.name = [p] ∧ T.isLeafAt p = true) :
     loadOMA T nm inp = load T nm inp := loadOMA_eq_load_of_leaves T nm inp h
+
+/-! ## The loader as pyham runs it: a stack machine over SAX events (C01–C04, C11, C20)
+
+  `Model/Sax.lean` transcribes `OrthoXMLParser.start` / `.end` call by call with `hog_stack` explicit.  The theorems
+  below say that this machine, run over the event stream of a document, is the recursive loader every other theorem
+  is about; the harness compares the machine with the real parser object in lock step (tag `saxtr`). -/
+
+/-- the stack machine run over the events of the <groups> section ends, with an empty `hog_stack` and skip mode off, in
+    exactly the families and parser state of the recursive loader -- or raises the same exception (any filter) -/
+theorem C03_stack_machine_is_loader (env : Env) (flt : HogFilter) (groups : List Elem) :
+    Sax.runEvents env flt (Sax.eventsL groups) {} =
+      (topElems env flt groups [] {}).map fun r => { hstack := [], skip := 0, tops := r.1, ps := r.2 } :=
+  Sax.sax_groups env flt groups
+
+/-- the streaming load is the load: every theorem about `load` is a theorem about the event-driven parser -/
+theorem C03_streaming_load_is_load (T : STree) (nm : Naming) (inp : Input) :
+    Sax.loadSax T nm inp = load T nm inp := Sax.buildHamSax_eq T nm inp _ none
+
+/-- ... also with a filter: skip mode (placeholders pushed on `hog_stack`, every call ignored until the matching end)
+    is the recursive loader stepping over the unselected family -/
+theorem C11_streaming_filtered_load (T : STree) (nm : Naming) (inp : Input) (f : Filter) :
+    Sax.loadFilteredSax T nm inp f = loadFiltered T nm inp f := by
+  unfold Sax.loadFilteredSax loadFiltered
+  simp only [bind]
+  cases filterTops f inp.groups (filterGenes f inp.species, []) with
+  | error e => rfl
+  | ok r => simp only [Except.bind]; exact Sax.buildHamSax_eq T nm inp _ _
+
+/-- wherever in the stream the fault occurs: once a call raises, the run has failed with that exception, whatever follows
+    (nothing after the faulty call is read, no state is returned) -/
+theorem C20_stream_stops_at_fault (env : Env) (flt : HogFilter) (before after : List Sax.Ev) (m : Sax.MS) (e : Err)
+    (h : Sax.runEvents env flt before m = .error e) : Sax.runEvents env flt (before ++ after) m = .error e := by
+  rw [Sax.runEvents_append, h]; rfl
+
+/-- the lock-step trace: it ends in an exception exactly when the run does, with the same exception; while the run
+    succeeds there is one observation per call, the observation of the machine state after that call -/
+theorem C03_trace_is_the_run (env : Env) (flt : HogFilter) (es : List Sax.Ev) (m : Sax.MS) :
+    (Sax.trace env flt es m).2 = (match Sax.runEvents env flt es m with | .ok _ => none | .error e => some e) ∧
+    ∀ k m', k < es.length → Sax.runEvents env flt (es.take (k + 1)) m = .ok m' → (Sax.trace env flt es m).1[k]? = some m'.obs :=
+  ⟨Sax.trace_end env flt es m, fun k m' hk h => Sax.trace_obs env flt es m k m' h hk⟩
 
 end Pyham.Props
